@@ -243,6 +243,22 @@ func VerifC08Converge(h *verifh.H) {
 	}
 	writes := h.Param("writes", 2)
 	for k := 0; k < writes; k++ {
+		if h.Param("holes", 0) == 1 && h.Choice("hole", 2) == 1 {
+			// a batch that the hub rejects at its last entity (a nil reference): the change positions its
+			// earlier entities had taken stay unused, a hole in the source's change log
+			bad := server.NewEntity("ns0:bad", 0)
+			bad.References["ns0:p1"] = nil
+			hole := func(id string) *server.Entity {
+				e := server.NewEntity(id, 0)
+				e.Properties["ns0:tag"] = "refused" + itoa(k)
+				return e
+			}
+			batch := []*server.Entity{hole("ns0:e1")}
+			if h.Choice("holeWidth", 2) == 1 {
+				batch = append(batch, hole("ns0:e2"))
+			}
+			h.Assert(src.StoreEntities(append(batch, bad)) != nil, "a batch with a rejected entity is refused")
+		}
 		h.Assert(src.StoreEntities([]*server.Entity{draw("w" + itoa(k))}) == nil, "source write")
 		if flaky {
 			switch h.Choice("runNow", 4) {
